@@ -22,6 +22,8 @@ import (
 
 	"github.com/jcmturner/gofork/encoding/asn1"
 	"github.com/jcmturner/gokrb5/v8/asn1tools"
+	"github.com/jcmturner/gokrb5/v8/config"
+	"github.com/jcmturner/gokrb5/v8/credentials"
 	"github.com/jcmturner/gokrb5/v8/kadmin"
 	"github.com/jcmturner/gokrb5/v8/keytab"
 	"github.com/jcmturner/gokrb5/v8/messages"
@@ -848,6 +850,60 @@ func afterDecrypt(c *engine.Ctx) {
 					c.Distinct(fmt.Sprintf("after/%s/%d", name, et))
 				}
 			}
+			// AS-REP decrypted through password credentials, with key-derivation hints among its padata in an order that
+			// is not ascending by type (and an unrelated element): Unmarshal, DecryptEncPart(credentials), Marshal
+			for pi, patypes := range [][]int32{{19, 3}, {19, 11, 3}, {136, 19, 2}, {19}} {
+				evals++
+				salt := "salt-of-user1"
+				var params []byte
+				if et != rcrypto.DES3 && et != rcrypto.RC4 {
+					params = []byte{0, 0, 0, 9}
+				}
+				pkey, err := rcrypto.StringToKey(et, "pass-w0rd", salt, params)
+				if err != nil {
+					engine.Fatal("string-to-key: %v", err)
+				}
+				part := krbmsg.EncKDCRepPart{App: krbmsg.AppEncASRepPart, Key: krbmsg.EncryptionKey{Type: et, Value: m.SessionKey}, LastReqs: []krbmsg.LastReq{{Type: 0, Value: apworld.T0}}, Nonce: 78, Flags: 0x40800000,
+					AuthTime: apworld.T0, StartTime: krbmsg.Tm(apworld.T0), EndTime: apworld.T0.Add(8 * time.Hour), SRealm: apworld.Realm, SName: krbmsg.PrincipalName{Type: 2, Names: []string{"krbtgt", apworld.Realm}}}
+				p, _ := rcrypto.Get(et)
+				ct, err := rcrypto.EncryptWithConfounder(et, pkey, 3, make([]byte, p.Conf), part.Encode())
+				if err != nil {
+					engine.Fatal("encrypt: %v", err)
+				}
+				var pas []krbmsg.PAData
+				for _, t := range patypes {
+					switch t {
+					case 19:
+						pas = append(pas, krbmsg.PAData{Type: 19, Value: krbmsg.EncodeETypeInfo2([]krbmsg.ETypeInfo2Entry{{EType: et, Salt: &salt, Params: params}})})
+					case 11:
+						pas = append(pas, krbmsg.PAData{Type: 11, Value: der.Seq(der.Seq(der.Explicit(0, der.Int(int64(et))), der.Explicit(1, der.Octets([]byte("other-salt")))))})
+					case 3:
+						pas = append(pas, krbmsg.PAData{Type: 3, Value: []byte("yet-another-salt")})
+					default:
+						pas = append(pas, krbmsg.PAData{Type: t, Value: []byte{0x30, 0x00}})
+					}
+				}
+				rep := krbmsg.KDCRep{App: krbmsg.AppASRep, PVNO: 5, MsgType: 11, PAData: pas, CRealm: apworld.Realm, CName: krbmsg.PrincipalName{Type: 1, Names: []string{"user1"}}, Ticket: m.Ticket, Enc: krbmsg.EncryptedData{EType: et, Cipher: ct}}
+				rb := rep.Encode()
+				prec := map[string]interface{}{"etype": et, "padata_types": patypes}
+				var k messages.ASRep
+				var out []byte
+				derr := k.Unmarshal(rb)
+				if derr == nil {
+					_, derr = k.DecryptEncPart(credentials.New("user1", apworld.Realm).WithPassword("pass-w0rd"))
+				}
+				if derr == nil {
+					out, derr = k.Marshal()
+				}
+				switch {
+				case derr != nil:
+					c.Violate("afterdecrypt", "AS-REP:decrypt-through-password-credentials", map[string]interface{}{"err": derr.Error()}, prec)
+				case !bytes.Equal(out, rb):
+					c.Violate("afterdecrypt", "AS-REP:reencoding-after-DecryptEncPart(password)-differs", map[string]interface{}{"first_difference_at": firstDiff(out, rb), "len_original": len(rb), "len_reencoded": len(out)}, prec)
+				default:
+					c.Distinct(fmt.Sprintf("after/AS-REP-password/%d/%d", et, pi))
+				}
+			}
 			// KRB-PRIV: Unmarshal, DecryptEncPart, Marshal
 			evals++
 			pp := krbmsg.EncKrbPrivPart{UserData: []byte("secret user data"), Timestamp: krbmsg.Tm(apworld.T0), Usec: krbmsg.I64(5), SeqNum: krbmsg.I64(9), SAddress: apworld.AddrMatch}
@@ -911,6 +967,45 @@ func constructed(c *engine.Ctx) {
 		}
 		c.Distinct(fmt.Sprintf("flag/%d", i))
 	}
+	// the same starting from bit strings shorter than four octets (the zero value included) and longer ones:
+	// KerberosFlags ::= BIT STRING (SIZE (32..MAX)), so SetFlag has to deliver at least 32 bits with bit i set
+	for n := 0; n <= 5; n++ {
+		for i := 0; i < 32; i++ {
+			evals++
+			f := asn1.BitString{Bytes: make([]byte, n), BitLength: 8 * n}
+			if n == 0 {
+				f = asn1.BitString{}
+			}
+			rec := map[string]interface{}{"flag": i, "starting_octets": n}
+			if pn := safe(func() { types.SetFlag(&f, i) }); pn != "" {
+				c.Violate("constructed", "flags:SetFlag-panic:short-bit-string", map[string]interface{}{"panic": pn}, rec)
+				continue
+			}
+			body := messages.KDCReqBody{KDCOptions: f, Realm: "R", Till: t0, Nonce: 1, EType: []int32{18}}
+			b, err := body.Marshal()
+			if err != nil {
+				c.Violate("constructed", "flags:marshal:short-bit-string", map[string]interface{}{"err": err.Error()}, rec)
+				continue
+			}
+			rb, derr := krbmsg.DecodeKDCReqBody(b)
+			switch {
+			case f.BitLength < 32 || len(f.Bytes)*8 < f.BitLength:
+				c.Violate("constructed", "flags:fewer-than-32-bits:short-bit-string", map[string]interface{}{"bit_length": f.BitLength, "octets": len(f.Bytes)}, rec)
+			case derr != nil || rb.KDCOptions != 1<<uint(31-i):
+				c.Violate("constructed", "flags:bit-numbering:short-bit-string", map[string]interface{}{"err": fmt.Sprint(derr), "decoded": fmt.Sprintf("%08x", rb.KDCOptions)}, rec)
+			case !types.IsFlagSet(&f, i):
+				c.Violate("constructed", "flags:IsFlagSet:short-bit-string", nil, rec)
+			default:
+				var back messages.KDCReqBody
+				if err := back.Unmarshal(b); err != nil || !types.IsFlagSet(&back.KDCOptions, i) {
+					c.Violate("constructed", "flags:lost-in-own-round-trip:short-bit-string", map[string]interface{}{"err": fmt.Sprint(err)}, rec)
+				} else {
+					c.Distinct(fmt.Sprintf("flag-short/%d/%d", n, i))
+				}
+			}
+		}
+	}
+	constructorsInLocalZone(c)
 	// NewKRBError / KRBError built by hand
 	evals++
 	ke := messages.NewKRBError(types.PrincipalName{NameType: 2, NameString: []string{"krbtgt", "R"}}, "R", 25, "preauth required")
@@ -961,6 +1056,133 @@ func constructed(c *engine.Ctx) {
 		}
 	}
 	_ = asn1.BitString{}
+}
+
+// constructorsInLocalZone: the messages gokrb5 builds itself (request constructors, authenticator, pre-authentication
+// timestamp, KRB-ERROR), built while the machine's local zone is not UTC, must decode with the strict reference
+// decoder: every KerberosTime in the 15-character UTC form, flags of 32 bits, right tags.
+func constructorsInLocalZone(c *engine.Ctx) {
+	vclock.Virtual(apworld.T0)
+	defer vclock.Virtual(apworld.T0)
+	now := vclock.Now()
+	near := func(t time.Time, want time.Time) bool {
+		d := t.Sub(want)
+		return d > -2*time.Second && d < 2*time.Second
+	}
+	cname := types.PrincipalName{NameType: 1, NameString: []string{"user1"}}
+	sname := types.PrincipalName{NameType: 2, NameString: []string{"HTTP", "host.r.com"}}
+	var tgt messages.Ticket
+	if err := tgt.Unmarshal(ticketN(0)); err != nil {
+		engine.FailValid("ticket construction", err)
+	}
+	for ci, mk := range []func(*config.Config){
+		func(cf *config.Config) {},
+		func(cf *config.Config) { cf.LibDefaults.RenewLifetime = time.Hour; cf.LibDefaults.Forwardable = true },
+		func(cf *config.Config) {
+			cf.LibDefaults.TicketLifetime = 10 * time.Minute
+			cf.LibDefaults.Proxiable = true
+			cf.LibDefaults.Canonicalize = true
+		},
+	} {
+		cfg := config.New()
+		cfg.LibDefaults.DefaultRealm = "R.COM"
+		cfg.LibDefaults.NoAddresses = true
+		mk(cfg)
+		rec := map[string]interface{}{"configuration": ci, "local_zone": vclock.Zone.String()}
+		check := func(name string, b []byte, err error, app int) {
+			evals++
+			if err != nil {
+				c.Violate("constructed", "constructor:"+name+":error", map[string]interface{}{"err": err.Error()}, rec)
+				return
+			}
+			r, derr := krbmsg.DecodeKDCReq(b)
+			switch {
+			case derr != nil:
+				c.Violate("constructed", "constructor:"+name+":not-conformant", map[string]interface{}{"err": derr.Error(), "encoding": hexTrunc(b)}, rec)
+			case r.App != app || r.PVNO != 5:
+				c.Violate("constructed", "constructor:"+name+":wrong-tag-or-pvno", nil, rec)
+			case !near(r.Body.Till, now.Add(cfg.LibDefaults.TicketLifetime)):
+				c.Violate("constructed", "constructor:"+name+":till", map[string]interface{}{"till": r.Body.Till.String(), "now": now.UTC().String()}, rec)
+			case cfg.LibDefaults.RenewLifetime > 0 && (r.Body.RTime == nil || !near(*r.Body.RTime, now.Add(cfg.LibDefaults.RenewLifetime))):
+				c.Violate("constructed", "constructor:"+name+":rtime", nil, rec)
+			default:
+				c.Distinct(fmt.Sprintf("constructor/%s/%d", name, ci))
+			}
+		}
+		as, err := messages.NewASReqForTGT("R.COM", cfg, cname)
+		var b []byte
+		if err == nil {
+			b, err = as.Marshal()
+		}
+		check("NewASReqForTGT", b, err, krbmsg.AppASReq)
+		as, err = messages.NewASReqForChgPasswd("R.COM", cfg, cname)
+		if err == nil {
+			b, err = as.Marshal()
+		}
+		check("NewASReqForChgPasswd", b, err, krbmsg.AppASReq)
+		for _, et := range []int32{18, 23} {
+			p, _ := rcrypto.Get(et)
+			sk := types.EncryptionKey{KeyType: et, KeyValue: bytes.Repeat([]byte{7}, p.KeyLen)}
+			for _, renewal := range []bool{false, true} {
+				tr, err := messages.NewTGSReq(cname, "R.COM", cfg, tgt, sk, sname, renewal)
+				if err == nil {
+					b, err = tr.Marshal()
+				}
+				check(fmt.Sprintf("NewTGSReq(renewal=%v)", renewal), b, err, krbmsg.AppTGSReq)
+			}
+			// authenticator + AP-REQ
+			evals++
+			auth, err := types.NewAuthenticator("R.COM", cname)
+			if err != nil {
+				c.Violate("constructed", "constructor:NewAuthenticator:error", map[string]interface{}{"err": err.Error()}, rec)
+				continue
+			}
+			ap, err := messages.NewAPReq(tgt, sk, auth)
+			if err == nil {
+				b, err = ap.Marshal()
+			}
+			if err != nil {
+				c.Violate("constructed", "constructor:NewAPReq:error", map[string]interface{}{"err": err.Error()}, rec)
+				continue
+			}
+			rap, derr := krbmsg.DecodeAPReq(b)
+			if derr != nil {
+				c.Violate("constructed", "constructor:NewAPReq:not-conformant", map[string]interface{}{"err": derr.Error()}, rec)
+				continue
+			}
+			_, pt, derr := rcrypto.Decrypt(et, sk.KeyValue, 11, rap.Auth.Cipher)
+			if derr == nil {
+				var ra krbmsg.Authenticator
+				ra, derr = krbmsg.DecodeAuthenticator(pt)
+				if derr == nil && !near(ra.CTime, now) {
+					derr = fmt.Errorf("ctime %v is not the current instant %v", ra.CTime, now.UTC())
+				}
+			}
+			if derr != nil {
+				c.Violate("constructed", "constructor:NewAuthenticator:not-conformant", map[string]interface{}{"err": derr.Error()}, rec)
+			} else {
+				c.Distinct(fmt.Sprintf("constructor/authenticator/%d/%d", et, ci))
+			}
+		}
+	}
+	// pre-authentication timestamp and KRB-ERROR
+	evals++
+	if b, err := types.GetPAEncTSEncAsnMarshalled(); err != nil {
+		c.Violate("constructed", "constructor:PA-ENC-TS-ENC:error", map[string]interface{}{"err": err.Error()}, nil)
+	} else if ts, derr := krbmsg.DecodePAEncTSEnc(b); derr != nil || !near(ts.Timestamp, now) {
+		c.Violate("constructed", "constructor:PA-ENC-TS-ENC:not-conformant", map[string]interface{}{"err": fmt.Sprint(derr), "encoding": hexTrunc(b)}, map[string]interface{}{"local_zone": vclock.Zone.String()})
+	} else {
+		c.Distinct("constructor/pa-enc-ts-enc")
+	}
+	evals++
+	ke := messages.NewKRBError(types.PrincipalName{NameType: 2, NameString: []string{"krbtgt", "R"}}, "R", 25, "x")
+	if b, err := ke.Marshal(); err != nil {
+		c.Violate("constructed", "constructor:NewKRBError:error", map[string]interface{}{"err": err.Error()}, nil)
+	} else if r, derr := krbmsg.DecodeKRBError(b); derr != nil || !near(r.STime, now) {
+		c.Violate("constructed", "constructor:NewKRBError:not-conformant", map[string]interface{}{"err": fmt.Sprint(derr), "encoding": hexTrunc(b)}, map[string]interface{}{"local_zone": vclock.Zone.String()})
+	} else {
+		c.Distinct("constructor/krb-error")
+	}
 }
 
 // (5) the length-octet helpers for every length 0..2^24
